@@ -1,1 +1,187 @@
+(* C02 — HMC: each chain's update ends either at its unchanged previous position or at the point
+   reached by exactly L leapfrog steps from (x, p), the latter exactly when
+   ln u <= H(x,p) - H(x',p'); rows of the batch never influence one another; the integrator is
+   time-reversible.
+   Model: Model/HMC.v.  (1)-(3) hold for EVERY number structure (no ring law is used), hence for
+   the reals, the rationals and any floating-point instance; (4) is stated over the reals; (5) is
+   the IEEE-754 decision layer (Flocq), generic in the format, so it holds for binary32 and
+   binary64 and for every NaN-payload convention. *)
+From Coq Require Import Reals.
+From MiniMcmc Require Import Base.Num Base.Fp Base.Util.
 From MiniMcmc Require Import Model.HMC.
+From MiniMcmc Require Import Proofs.HMC.
+Close Scope Q_scope.
+Close Scope R_scope.
+Local Open Scope nat_scope.
+
+(* (1) The code's loop, which carries the half-step gradient term g = (eps/2) grad(x) from one
+   leapfrog step to the next, computes exactly the textbook velocity-Verlet iteration: the
+   carried term never goes stale within an update, and since leapfrog_impl re-initialises g from
+   grad x, an update never reuses the gradient of a rejected trajectory. *)
+Theorem C02_impl_is_spec : forall (K : Num) (grad : list K -> list K) (eps : K) (L : nat)
+    (x p : list K),
+  leapfrog_impl K grad eps L x p = leapfrog K grad eps L (x, p).
+Proof. exact leapfrog_impl_spec. Qed.
+
+(* (2) One row: the end point of exactly L leapfrog steps when the test holds, otherwise the very
+   same x. *)
+Theorem C02_either_or : forall (K : Num) (logp : list K -> K) (grad : list K -> list K) (eps : K)
+    (L : nat) (x p : list K) (lnu : K),
+  (nleb K lnu (sub K (hamiltonian K logp (x, p))
+                     (hamiltonian K logp (leapfrog K grad eps L (x, p)))) = true ->
+     hmc_row K logp grad eps L x p lnu = fst (leapfrog K grad eps L (x, p))) /\
+  (nleb K lnu (sub K (hamiltonian K logp (x, p))
+                     (hamiltonian K logp (leapfrog K grad eps L (x, p)))) = false ->
+     hmc_row K logp grad eps L x p lnu = x).
+Proof. exact hmc_row_either_or. Qed.
+
+(* over the reals the test is the order relation: accepted iff ln u <= H(x,p) - H(x',p') *)
+Theorem C02_either_or_R : forall (logp : list R -> R) (grad : list R -> list R) (eps : R)
+    (L : nat) (x p : list R) (lnu : R),
+  ((lnu <= hamiltonian numR logp (x, p) - hamiltonian numR logp (leapfrog numR grad eps L (x, p)))%R ->
+     hmc_row numR logp grad eps L x p lnu = fst (leapfrog numR grad eps L (x, p))) /\
+  ((hamiltonian numR logp (x, p) - hamiltonian numR logp (leapfrog numR grad eps L (x, p)) < lnu)%R ->
+     hmc_row numR logp grad eps L x p lnu = x).
+Proof. exact hmc_row_R. Qed.
+
+(* zero leapfrog steps: the trajectory does not move, and the row stays at x either way *)
+Theorem C02_L0 : forall (K : Num) (logp : list K -> K) (grad : list K -> list K) (eps : K)
+    (x p : list K) (lnu : K),
+  leapfrog K grad eps 0 (x, p) = (x, p) /\ hmc_row K logp grad eps 0 x p lnu = x.
+Proof. intros. split; [apply leapfrog_0 | apply hmc_row_L0]. Qed.
+
+(* (3) Row i of the result is a function of row i of the inputs only. *)
+Theorem C02_row_independence : forall (K : Num) (logp : list K -> K) (grad : list K -> list K)
+    (eps : K) (L : nat) (xs ps : list (list K)) (lnus : list K) (i : nat) (dflt : list K),
+  i < length xs -> i < length ps -> i < length lnus ->
+  nth i (hmc_step K logp grad eps L xs ps lnus) dflt =
+  hmc_row K logp grad eps L (nth i xs []) (nth i ps []) (nth i lnus (zero K)).
+Proof. exact hmc_step_nth. Qed.
+
+Theorem C02_row_count : forall (K : Num) (logp : list K -> K) (grad : list K -> list K)
+    (eps : K) (L : nat) (xs ps : list (list K)) (lnus : list K),
+  length (hmc_step K logp grad eps L xs ps lnus) =
+  Nat.min (Nat.min (length xs) (length ps)) (length lnus).
+Proof. exact hmc_step_length. Qed.
+
+(* overwriting any other rows (position row jx, momentum row jp, draw ju, all different from i)
+   with arbitrary values leaves row i of the result unchanged — for every i, in range or not *)
+Theorem C02_other_rows_irrelevant : forall (K : Num) (logp : list K -> K)
+    (grad : list K -> list K) (eps : K) (L : nat) (xs ps : list (list K)) (lnus : list K)
+    (i jx jp ju : nat) (vx vp : list K) (vu : K) (dflt : list K),
+  jx <> i -> jp <> i -> ju <> i ->
+  nth i (hmc_step K logp grad eps L (upd jx vx xs) (upd jp vp ps) (upd ju vu lnus)) dflt =
+  nth i (hmc_step K logp grad eps L xs ps lnus) dflt.
+Proof. exact hmc_step_other_rows. Qed.
+
+(* (4) Time reversibility over the reals, for every gradient field that returns a vector of the
+   dimension of its argument (no smoothness, no symmetry), every step size (stable or not) and
+   every dimension. *)
+Section C02_reversibility.
+  Variable grad : list R -> list R.
+  Variable eps : R.
+  Hypothesis grad_length : forall x, length (grad x) = length x.
+
+  Theorem C02_reversible : forall x p : list R, length p = length x ->
+    leap1 numR grad eps (flip numR (leap1 numR grad eps (x, p))) = flip numR (x, p).
+  Proof. exact (leap1_reversible grad eps grad_length). Qed.
+
+  Theorem C02_leapfrog_reversible : forall (L : nat) (x p : list R), length p = length x ->
+    leapfrog numR grad eps L (flip numR (leapfrog numR grad eps L (x, p))) = flip numR (x, p).
+  Proof. exact (leapfrog_reversible grad eps grad_length). Qed.
+End C02_reversibility.
+
+(* the energy does not see the sign of the momentum *)
+Theorem C02_hamiltonian_flip : forall (logp : list R -> R) (z : list R * list R),
+  hamiltonian numR logp (flip numR z) = hamiltonian numR logp z.
+Proof. exact hamiltonian_flip. Qed.
+
+(* (5) IEEE decision layer: mask = (h_cur - h_prop >= ln u) on any IEEE values. *)
+Section C02_decision.
+  Variables prec emax : Z.
+  Context (Hprec : FLX.Prec_gt_0 prec) (Hmax : BinarySingleNaN.Prec_lt_emax prec emax).
+  Notation fl := (binary_float prec emax).
+  Variable nanf : fl -> fl -> { x : fl | Binary.is_nan prec emax x = true }.
+
+  Theorem C02_decision_rule : forall (A : Type) (x x' : A) (h_cur h_prop lnu : fl),
+    (fle lnu (fminus nanf h_cur h_prop) = true ->
+       hmc_row_float nanf x x' h_cur h_prop lnu = x') /\
+    (fle lnu (fminus nanf h_cur h_prop) = false ->
+       hmc_row_float nanf x x' h_cur h_prop lnu = x).
+  Proof. exact (@hmc_row_float_rule prec emax Hprec Hmax nanf). Qed.
+
+  (* a NaN energy on either side never accepts, whatever ln u (also -inf) *)
+  Theorem C02_decision_nan : forall h_cur h_prop lnu : fl,
+    fnan h_prop = true \/ fnan h_cur = true -> hmc_accept nanf h_cur h_prop lnu = false.
+  Proof. exact (@hmc_accept_nan prec emax Hprec Hmax nanf). Qed.
+
+  (* proposal energy +inf (log-density -inf or overflowing momentum): for EVERY current energy
+     (finite, +-inf, NaN) the proposal is accepted only when ln u is exactly -inf (u = 0) *)
+  Theorem C02_decision_posinf : forall h_cur h_prop lnu : fl,
+    fposinf h_prop = true -> hmc_accept nanf h_cur h_prop lnu = true -> fneginf lnu = true.
+  Proof. exact (@hmc_accept_posinf prec emax Hprec Hmax nanf). Qed.
+End C02_decision.
+
+(* ---- Non-vacuity ---- *)
+(* standard normal in 2-D over the rationals: grad = -x, logp = -|x|^2/2; eps = 1/2, L = 3 *)
+Definition c02_grad (x : list Q) : list Q := map Qopp x.
+Definition c02_logp (x : list Q) : Q := sub numQ 0%Q (mul numQ (vdot numQ x x) (1 # 2)%Q).
+Definition c02_x : list Q := [1%Q; 0%Q].
+Definition c02_p : list Q := [0%Q; 1%Q].
+
+Example C02_leapfrog_concrete :
+  leapfrog numQ c02_grad (1 # 2)%Q 3 (c02_x, c02_p) =
+    ([(7 # 128)%Q; (33 # 32)%Q], [(-495 # 512)%Q; (7 # 128)%Q]) /\
+  leapfrog_impl numQ c02_grad (1 # 2)%Q 3 c02_x c02_p =
+    leapfrog numQ c02_grad (1 # 2)%Q 3 (c02_x, c02_p) /\
+  leapfrog numQ c02_grad (1 # 2)%Q 3
+    (flip numQ (leapfrog numQ c02_grad (1 # 2)%Q 3 (c02_x, c02_p))) = flip numQ (c02_x, c02_p) /\
+  flip numQ (c02_x, c02_p) = ([1%Q; 0%Q], [0%Q; (-1)%Q]).
+Proof. repeat split; vm_compute; reflexivity. Qed.
+
+(* H(x,p) - H(x',p') = -1089/524288: ln u = -1 accepts (moves), the boundary value accepts
+   (<=), ln u = 0 rejects (stays at the very same x) *)
+Example C02_accept_reject_concrete :
+  sub numQ (hamiltonian numQ c02_logp (c02_x, c02_p))
+           (hamiltonian numQ c02_logp (leapfrog numQ c02_grad (1 # 2)%Q 3 (c02_x, c02_p)))
+    = (-1089 # 524288)%Q /\
+  hmc_row numQ c02_logp c02_grad (1 # 2)%Q 3 c02_x c02_p (-1)%Q = [(7 # 128)%Q; (33 # 32)%Q] /\
+  hmc_row numQ c02_logp c02_grad (1 # 2)%Q 3 c02_x c02_p (-1089 # 524288)%Q
+    = [(7 # 128)%Q; (33 # 32)%Q] /\
+  hmc_row numQ c02_logp c02_grad (1 # 2)%Q 3 c02_x c02_p 0%Q = c02_x /\
+  hmc_step numQ c02_logp c02_grad (1 # 2)%Q 3 [c02_x; c02_x] [c02_p; c02_p] [(-1)%Q; 0%Q]
+    = [[(7 # 128)%Q; (33 # 32)%Q]; c02_x].
+Proof. repeat split; vm_compute; reflexivity. Qed.
+
+(* the hypothesis of (4) is met by the standard-normal gradient over the reals *)
+Example C02_grad_length_satisfiable :
+  forall x : list R, length (map Ropp x) = length x.
+Proof. intros x. apply map_length. Qed.
+
+(* binary32 decisions [bits of h_cur - h_prop; mask]:
+   h_cur = 1.0, h_prop = +inf: difference -inf; ln u = -1.0 rejects, ln u = -inf accepts;
+   h_cur = h_prop = +inf: difference NaN, rejects even for ln u = -inf;
+   h_cur = 1.0, h_prop = 2.0: difference -1.0; ln u = -1.0 (tie) accepts, ln u = -2.0 accepts,
+   ln u = -0.5 rejects *)
+Example C02_decide32_concrete :
+  hmc_decide32 1065353216 2139095040 3212836864 = [4286578688%Z; 0%Z] /\
+  hmc_decide32 1065353216 2139095040 4286578688 = [4286578688%Z; 1%Z] /\
+  nth 1 (hmc_decide32 2139095040 2139095040 4286578688) 7%Z = 0%Z /\
+  hmc_decide32 1065353216 1073741824 3212836864 = [3212836864%Z; 1%Z] /\
+  hmc_decide32 1065353216 1073741824 3221225472 = [3212836864%Z; 1%Z] /\
+  hmc_decide32 1065353216 1073741824 3204448256 = [3212836864%Z; 0%Z].
+Proof. repeat split; vm_compute; reflexivity. Qed.
+
+Print Assumptions C02_impl_is_spec.
+Print Assumptions C02_either_or.
+Print Assumptions C02_either_or_R.
+Print Assumptions C02_L0.
+Print Assumptions C02_row_independence.
+Print Assumptions C02_row_count.
+Print Assumptions C02_other_rows_irrelevant.
+Print Assumptions C02_reversible.
+Print Assumptions C02_leapfrog_reversible.
+Print Assumptions C02_hamiltonian_flip.
+Print Assumptions C02_decision_rule.
+Print Assumptions C02_decision_nan.
+Print Assumptions C02_decision_posinf.
